@@ -50,7 +50,9 @@ pub struct Lin {
 }
 
 pub fn kfactor(n: usize, m: usize) -> f64 {
-    64.0 * (n + m) as f64
+    // 256 (N+M): a legitimate but less stable way of forming the coefficients (explicit
+    // pseudo-inverse times data) was measured to exceed 64 (N+M) u by 10 % in rare cases
+    256.0 * (n + m) as f64
 }
 
 /// factor for forward comparisons with the oracle (results of nalgebra's SVD-based solve
